@@ -108,6 +108,8 @@ def units(prop, tier, seed):
     if tier == "quick":
         for i in range(QUICK_SWEEPS):
             yield ("sweep", subseed(seed, prop, "sweep", i), next(order))
+            if i % 3 == 0:
+                yield ("sweep2", subseed(seed, prop, "sweep2", i), next(order))
         for tag in un:
             for i in range(QUICK_HRAND):
                 yield ("hrand", (tag, subseed(seed, prop, "hrand", tag, i)), next(order))
@@ -124,6 +126,8 @@ def units(prop, tier, seed):
                     yield ("hrand", (tag, subseed(seed, prop, "hrand", tag, i)), next(order))
                     i += 1
             yield ("sweep", subseed(seed, prop, "sweep", i), next(order))
+            if i % 3 == 0:
+                yield ("sweep2", subseed(seed, prop, "sweep2", i), next(order))
 
 
 def _account(prop, sim, agg, unit_order, kind, sample=True):
@@ -167,6 +171,8 @@ def exec_unit(prop, unit, agg):
         _account(prop, sim, agg, order, "hrand:" + tag)
     elif kind == "sweep":
         sweep_unit(prop, arg, agg, order)
+    elif kind == "sweep2":
+        sweep_unit(prop, arg, agg, order, pairs=True)
     elif kind == "scen":
         from . import scenarios
         scenarios.exec_unit(prop, arg, agg, order)
@@ -232,7 +238,10 @@ def _sweep_step(kind, rng, base):
     return None
 
 
-def sweep_unit(prop, seed, agg, order):
+GENERIC_EXTRAS = ["cancel_all", "cancel_group", "cancel_live", "flush", "spawn2"]
+
+
+def sweep_unit(prop, seed, agg, order, pairs=False):
     rng = random.Random(seed)
     g = Gen(seed, prop, True)
     g.nsteps = min(g.nsteps, rng.choice([8, 12, 18, 24]))
@@ -254,6 +263,23 @@ def sweep_unit(prop, seed, agg, order):
     L = getattr(base, "handles_before_quiesce", base.loop.handles_run)
     L = min(L, 160)
     base_steps = base_run["steps"]
+    if pairs:
+        # two faults: the property's sweep step and a second (generic) one, at sampled pairs of positions
+        second = _sweep_step(rng.choice(GENERIC_EXTRAS), rng, base)
+        if second is None or isinstance(second, list):
+            return
+        if second.get("r") == 900:
+            second = dict(second, r=901)
+        for _ in range(80):
+            h1, h2 = rng.randrange(L + 1), rng.randrange(L + 1)
+            run = {"prop": prop, "seed": seed, "clean": True, "config": base_run["config"], "steps": base_steps,
+                   "inject": [{"h": h1, "step": e} for e in extras] + [{"h": h2, "step": second}], "sweep": kind + "+pair"}
+            sim = run_sim(copy.deepcopy(run), {prop})
+            agg.stats["sweep_pair_positions"] += 1
+            _account(prop, sim, agg, order, "sweep2:" + kind, sample=False)
+            if sim.viol:
+                return
+        return
     for h in range(L + 1):
         run = {"prop": prop, "seed": seed, "clean": True, "config": base_run["config"],
                "steps": base_steps, "inject": [{"h": h, "step": e} for e in extras], "sweep": kind}
@@ -345,6 +371,7 @@ def evidence(prop, tier, seed, total, wall, known_hit, real):
         "steps_skipped_inapplicable": {k[8:]: v for k, v in sorted(st.items()) if k.startswith("skipped:")},
         "steered_away_from_known_findings": {k[8:]: v for k, v in sorted(st.items()) if k.startswith("steered:")},
         "sweep_positions": st.get("sweep_positions", 0) + st.get("sweep_positions_reentrant", 0),
+        "sweep_pair_positions": st.get("sweep_pair_positions", 0),
         "capacity_probes": st.get("capacity_probes", 0),
         "abstract_states_reached": len(total.states),
         "abstract_state_measure": "(running, in-cancel-callback, ended<=5, locked, closed, waiting spawners) per pool at idle points",
